@@ -1,5 +1,6 @@
 import AquaVerif.Proofs.Run
 import AquaVerif.Proofs.Clock
+import AquaVerif.Proofs.RunLiftSum
 import AquaVerif.Proofs.ClockCalendar
 /-
 Property C07 — the simulation calendar is exact.
@@ -72,6 +73,40 @@ never later than its latest harvest date. -/
 theorem harvest_not_after_latest_date (hv : Valid c) (hr : Reach c ev s) {k : Int} {t : Nat}
     (h : (k, t) ∈ s.summary) : (t : Int) + 1 ≤ c.hv k.toNat := harvest_by_latest_date hv hr h
 
+/-- A growing day lies strictly before its season's latest harvest date: a row with
+`growing_season = True` has `t + 1 ≤ harvest[season]` (the growing-season test is
+`planting_date <= day < harvest_date`, repository commit d260679). -/
+theorem growing_day_before_latest_harvest_date (hw : WF c) (hr : Reach c ev s) :
+    ∀ r ∈ s.rows, r.gs = true → (r.t : Int) + 1 ≤ c.hv r.season.toNat := gs_before_harvest hw hr
+
+/-- No growing day on or after the latest harvest date: a simulated day on or after
+`harvest[season]` has `growing_season = False` and `dap = 0`. -/
+theorem no_growing_day_on_or_after_latest_harvest_date (hw : WF c) (hr : Reach c ev s) :
+    ∀ r ∈ s.rows, c.hv r.season.toNat ≤ (r.t : Int) → r.gs = false ∧ r.dap = 0 :=
+  no_growing_day_from_harvest_date hw hr
+
+/-- While the harvest flag of the current season is up, the day about to be simulated is not a
+growing day. -/
+theorem no_growing_day_while_harvest_flag_up (hw : WF c) (hr : Reach c ev s)
+    (hf : s.finished = false) (hfl : s.harvestFlag = true) : gsOf c s = false :=
+  no_growing_day_while_flag hw hr hf hfl
+
+/-- After a season has been closed (its summary row `(k, t)` written) no later simulated day of
+that season is a growing day — with the off-season simulated, the days from the harvest date to
+the next planting date are fallow days (`growing_season = False`, `dap = 0`). -/
+theorem no_growing_day_after_season_closed (hw : WF c) (hr : Reach c ev s) {k : Int} {t : Nat}
+    (h : (k, t) ∈ s.summary) :
+    ∀ r ∈ s.rows, r.season = k → t < r.t → r.gs = false ∧ r.dap = 0 :=
+  no_growing_day_after_summary hw hr h
+
+/-- The growing days of a closed season `k` all lie in `[planting k, harvest k)`, at or before the
+step of its summary row. -/
+theorem growing_days_of_closed_season (hw : WF c) (hr : Reach c ev s) {k : Int} {t : Nat}
+    (h : (k, t) ∈ s.summary) :
+    ∀ r ∈ s.rows, r.season = k → r.gs = true →
+      c.pl k.toNat ≤ r.t ∧ r.t ≤ t ∧ (r.t : Int) + 1 ≤ c.hv k.toNat :=
+  growing_days_within_season hw hr h
+
 /-- Whatever the date set-up of `read_model_parameters` produces is a valid clock configuration,
 so all of the above holds for every run the implementation can start. -/
 theorem date_setup_is_valid {sy sm sd ey em ed pm pd hm hd : Int} {r : Seasons} (off : Bool)
@@ -96,5 +131,19 @@ theorem full_model_refines_clock {α : Type} [Field α] [LinearOrder α] [IsStri
     (hw : WF cfg.clock) (hi : InitOK cfg) (hr : RunReach F T cfg s) :
     ∃ ev : Ev, Reach cfg.clock ev s.clockOf ∧ ∀ d ∈ s.daysRev, ev d.D.tsc = d.events :=
   run_refines_clock hw hi hr
+
+/-- **Run level.** On every run of the full model a recorded growing-season day lies in a season,
+on or after its planting date and strictly before its latest harvest date; and after a season's
+summary row has been written no later recorded day of that season is a growing-season day
+(`growing_season = False`, `dap = 0`, no irrigation, transpiration, canopy, biomass or yield). -/
+theorem full_model_no_growing_day_from_harvest_date {α : Type} [Field α] [LinearOrder α]
+    [IsStrictOrderedRing α] {F : Fn α} {T : TrigFn α} {cfg : RunCfg α} {s : RunState α}
+    (hw : WF cfg.clock) (hi : InitOK cfg) (hr : RunReach F T cfg s) :
+    (∀ d ∈ s.daysRev, d.D.gs = true →
+      0 ≤ d.D.season ∧ cfg.clock.pl d.D.season.toNat ≤ d.D.tsc ∧
+        (d.D.tsc : Int) + 1 ≤ cfg.clock.hv d.D.season.toNat) ∧
+    (∀ x ∈ s.summaryTable, ∀ d ∈ s.daysRev, d.D.season = x.season → x.tsc < d.D.tsc →
+      FallowDay d) :=
+  ⟨run_gs_before_harvest hw hi hr, run_no_growing_day_after_harvest hw hi hr⟩
 
 end Aqua.C07
